@@ -103,7 +103,7 @@ chk("C13", "envx(virtual time)+udp replay",
     "DESIGN.md section 4 C13")
 chk("C14", "envx+refbmc",
     "exhaustive enumeration of repositories (<= n records over a shape alphabet, structured to 40) and of modifications injected before every request of the walk",
-    "Every repository of <= 2 (thorough 3) records over 25 record shapes (full sensor records with 4 ID-string encodings and lengths 0..max, compact, locator, OEM) x 6 ID layouts (first ID zero/non-zero, ascending, descending, sparse, near 0xFFFE), structured repositories of 1..40 records; then before each request of RetrieveSDRRepository one (thorough: two) of {add, erase first, erase last, reservation cancelled, add within the same second, add with reservation kept}; oracle: the result is exactly the full sensor records of one single repository state, no older than the last modification the BMC reported through its timestamps, each keyed by its own ID, every field equal to the reference decoding.",
+    "Every repository of <= 2 (thorough 3) records over 25 record shapes (full sensor records with 4 ID-string encodings and lengths 0..max, compact, locator, OEM) x 6 ID layouts (first ID zero/non-zero, ascending, descending, sparse, near 0xFFFE), structured repositories of 1..40 records; then before each request of RetrieveSDRRepository one (thorough: two) of {add, erase first, erase last, reservation cancelled, add within the same second, add with reservation kept, erase last with reservation kept} (timestamps also near 2^31 and FFFFFFFFh); oracle: the result is exactly the full sensor records of one single repository state, no older than the last modification the BMC reported through its timestamps, each keyed by its own ID, every field equal to the reference decoding.",
     "A modification that neither bumps a timestamp nor is followed by a reservation-checked request is undetectable by the protocol; then either neighbouring state is accepted.",
     "DESIGN.md section 4 C14, appendix A.6")
 chk("C16", "envx+refbmc",
